@@ -66,6 +66,10 @@ type SimConfig struct {
 	Backend     pt.GameBackend
 	NoAutoSetup bool // do not answer OnReadyOpenFirstTableGame with SetUpTableGame
 	NoGateSpy   bool
+	// OnSync, if set, runs synchronously inside the engine's OnTableUpdated callback (on the engine's goroutine,
+	// with the live table) before the snapshot is recorded: this is where actors are fed, exactly like the
+	// repository's own actor tests do.
+	OnSync func(t *pt.Table)
 	LightTrace  bool // keep only compact trace (drop raw JSON of old events)
 }
 
@@ -153,7 +157,12 @@ func NewSim(cfg SimConfig, seed int64) (*Sim, error) {
 	}
 	te := pt.NewTableEngine(opts, pt.WithGameBackend(be))
 	s.TE = te
-	te.OnTableUpdated(func(t *pt.Table) { s.pushTable(EvTable, "", t) })
+	te.OnTableUpdated(func(t *pt.Table) {
+		if cfg.OnSync != nil {
+			cfg.OnSync(t)
+		}
+		s.pushTable(EvTable, "", t)
+	})
 	te.OnTableStateUpdated(func(ev string, t *pt.Table) { s.pushTable(EvState, ev, t) })
 	te.OnTableErrorUpdated(func(t *pt.Table, err error) {
 		es := "<nil>"
